@@ -35,7 +35,9 @@ PARTIAL = ['C06_prefix (the nodes parsed before the first strict error are still
            'then a stray } / \\) / \\] / \\end{x}, then ANY garbage: the tolerant result is EXACTLY the document\'s node list '
            'tree_of2, reader right after the token), under the hypothesis ok_doc2_before: the document is well formed IN FRONT '
            'OF what is appended (the side conditions of the extended grammar look at the follow string; ok_doc2 alone is not '
-           'enough: C06_prefix2_follow_needed, a final comment without newline swallows the token); it rests on two '
+           'enough: C06_prefix2_follow_needed, a final comment without newline swallows the token; it IS enough for a document that '
+           'ends with whitespace in a context whose specials sequences contain no backslash / closing brace: '
+           'C06_prefix_closing2_ws_partial, C06_follow_extension_partial); it rests on two '
            'grammar-independent theorems about every string / context / state: C06_own_error_is_the_collectors and '
            'C06_collector_error_reproduced (a strict collector\'s own rejection of a token is reproduced verbatim by the '
            'tolerant collector). Arbitrary continuations of extended documents, and valid content nested inside an unfinished '
